@@ -60,6 +60,11 @@ CLAIMED = {
  "C20": ("V: generate_one/generate_many on generated schemas (logical, by-name, recursive) under many random.seed states; TLC requires the count, "
          "Conforms for every value, writability through both writers and equality of what is read back with Norm where the spec defines it.",
          "TLA+ spec (AvroValue!Conforms/Norm) + TLC trace validation", "3/C20"),
+ "C08": ("V: writer schemas x readers derived by 0-3 compatible/incompatible evolution steps at random positions (incl. definitions moved between "
+         "inline and by-reference spellings) x data; schemaless_reader(fo, w, r) and reader(fo, reader_schema=r); TLC evaluates AvroResolve!Resolve "
+         "(written clause by clause from the specification's resolution rules) on the logged bytes and requires the same value / a "
+         "SchemaResolutionError exactly when the rules give no result for the datum at hand.",
+         "TLA+ spec (AvroResolve) + TLC trace validation", "3/C08"),
 }
 checks = []
 for p in props:
